@@ -240,8 +240,7 @@ theorem fs_accesses_contained (fs : FS) (c : Cfg) (path orig : Bytes) (hfs : fs 
     that would itself be served: its name is `f ++ suffix` for a configured precompressor whose
     encoding `AcceptedEncodings` returned, where `f` is below the root, not hidden and an existing
     file; the bytes are what the filesystem holds under exactly that name.  The sidecar's own name
-    is not tested against the hide list (`hidden_sidecar_is_served` below): hiding `*.gz` keeps the
-    sidecars out of listings and direct requests, not out of content negotiation. -/
+    is not tested against the hide list (`sidecar_honours_hide_full_fails` below). -/
 theorem sidecar_only_for_servable_file (fs : FS) (c : Cfg) (path orig p : Bytes) (id : Nat) (enc : Bytes)
     (hfs : fs [] = .missing) (h : (serve fs c path orig).1 = .sidecar p id enc) :
     ∃ f suf, p = f ++ suf ∧ (enc, suf) ∈ c.pre ∧ enc ∈ c.accepted ∧
@@ -271,8 +270,21 @@ def gzCfg : Cfg :=
     canonical := true, pre := [(str "gzip", str ".gz")], accepted := [str "br", str "gzip"] }
 
 example : (serve gzFS gzCfg (str "/a.txt") (str "/a.txt")).1 = .sidecar (str "/srv/a.txt.gz") 2 (str "gzip") := by decide
-/-- the sidecar matches the hide rule `*.gz`: requested directly it is 404, it is not listed,
-    and it is still what a gzip-accepting client gets for `/a.txt` -/
+/-
+**sidecar_honours_hide** — full statement (violated by the code, known finding
+`hidden-sidecar-served`):
+
+    (serve fs c path orig).1 = .sidecar p id enc → c.hidden p = false
+-/
+
+/-- **sidecar_honours_hide_full_fails.** The sidecar matches the hide rule `*.gz`: requested
+    directly it is 404, it is not listed — and its bytes are still what a gzip-accepting client
+    gets for `/a.txt`. -/
+theorem sidecar_honours_hide_full_fails :
+    ∃ (fs : FS) (c : Cfg) (path orig p : Bytes) (id : Nat) (enc : Bytes),
+      fs [] = .missing ∧ (serve fs c path orig).1 = .sidecar p id enc ∧ c.hidden p = true :=
+  ⟨gzFS, gzCfg, str "/a.txt", str "/a.txt", str "/srv/a.txt.gz", 2, str "gzip", by decide⟩
+
 theorem hidden_sidecar_is_served :
     gzCfg.hidden (str "/srv/a.txt.gz") = true ∧
     (serve gzFS gzCfg (str "/a.txt.gz") (str "/a.txt.gz")).1 = .notFound ∧
